@@ -1,6 +1,7 @@
 package main
 
 import (
+	"go/token"
 	"fmt"
 	"go/types"
 	"sort"
@@ -12,7 +13,7 @@ import (
 func init() {
 	register("C17", &ruleSet{
 		run:    runC17,
-		floors: map[string]int{"O1": 30, "O5": 1},
+		floors: map[string]int{"O1": 30, "O5": 1, "O6": 1, "O7": 1},
 		explain: "Lockset discipline, sufficient for data-race freedom under the stated assumptions: for every struct type of the shared public objects (limits, " +
 			"strategies, partitions, limiters, listeners, measurements, registries and the objects they own) and every field - or what a pointer/map/slice/list field " +
 			"refers to - that is written anywhere outside a constructor, every access in the module either goes through sync/atomic, or holds one common mutex of the " +
@@ -42,6 +43,8 @@ func runC17(p *Prog, l *Ledger) {
 	l.Rule("O1", "every field (or referent of a pointer/map/slice/list field) written after construction is accessed only atomically, or under one common mutex of its object (exclusive for writes), or through a verified owner holding the owner's mutex")
 	l.Rule("O3", "ownership: an owner-guarded instance is reachable only through an unexported field that never escapes, and every method call through that field holds the owner's mutex (exclusively when the callee writes)")
 	l.Rule("O5", "package-level variables are written only during package initialisation")
+	l.Rule("O6", "instances do not share mutable state through package-level variables: no field of a concurrent object is initialised (directly, or through a constructor argument at a call site in the module) from a package-level variable that refers to mutable memory - each instance's lock only protects its own")
+	l.Rule("O7", "a type that holds a sync mutex by value is used through pointers: all its methods have pointer receivers (a value receiver copies the lock and reads every field without it)")
 	l.NotCovered = []string{"structs copied after first use", "user callbacks (predicates, lookup functions, measurement Update operations, metric suppliers) are assumed safe themselves", "third-party types (container/list, go-metrics, statsd client) are used under our lock or are documented concurrency-safe", "the logical race between snapshot and re-lock in DefaultListener (not a data race)", "deadlocks"}
 	l.Assume("objects are not copied after first use; user-supplied callbacks are themselves race-free")
 	locks := p.Locksets()
@@ -224,6 +227,10 @@ func runC17(p *Prog, l *Ledger) {
 	}
 	l.Count("mutable_locations", nMutable)
 	l.Count("immutable_locations", nImm)
+
+	// ---- O6 / O7
+	c17SharedGlobals(p, l, inScope)
+	c17PointerReceivers(p, l, inScope)
 
 	// ---- O3 ownership relations actually relied upon
 	var rels []string
@@ -467,4 +474,156 @@ func c17VerifyOwner(p *Prog, locks *LockInfo, ofr FieldRef) string {
 		}
 	}
 	return ""
+}
+
+// c17MutableGlobal: the package-level variable refers to memory that can be written through it: a slice, map or channel,
+// a pointer to a struct that has fields, or an interface initialised with such a pointer.
+func c17MutableGlobal(p *Prog, g *ssa.Global) bool {
+	if g == nil || g.Pkg == nil || !strings.HasPrefix(g.Pkg.Pkg.Path(), p.Mod) {
+		return false
+	}
+	t := g.Type().(*types.Pointer).Elem()
+	hasFields := func(t types.Type) bool {
+		if pt, ok := t.Underlying().(*types.Pointer); ok {
+			if st, ok := pt.Elem().Underlying().(*types.Struct); ok {
+				return st.NumFields() > 0
+			}
+			return true
+		}
+		return false
+	}
+	switch t.Underlying().(type) {
+	case *types.Slice, *types.Map, *types.Chan:
+		return true
+	case *types.Pointer:
+		return hasFields(t)
+	case *types.Interface:
+		// what the package initialiser stores into it
+		mutable := false
+		for _, m := range g.Pkg.Members {
+			f, ok := m.(*ssa.Function)
+			if !ok || f.Name() != "init" {
+				continue
+			}
+			allInstrs(f, func(ins ssa.Instruction) {
+				if st, ok := ins.(*ssa.Store); ok && st.Addr == ssa.Value(g) {
+					if mi, ok := st.Val.(*ssa.MakeInterface); ok && hasFields(mi.X.Type()) {
+						mutable = true
+					}
+				}
+			})
+		}
+		return mutable
+	}
+	return false
+}
+
+func c17SharedGlobals(p *Prog, l *Ledger, inScope func(*types.Named) bool) {
+	var bad []string
+	n := 0
+	isSharedLoad := func(v ssa.Value) *ssa.Global {
+		v = strip(v, false)
+		if u, ok := v.(*ssa.UnOp); ok && u.Op == token.MUL {
+			if g, ok := u.X.(*ssa.Global); ok && c17MutableGlobal(p, g) {
+				return g
+			}
+		}
+		return nil
+	}
+	for _, f := range p.Funcs {
+		if p.PkgOf(f) == "" || strings.HasPrefix(p.PkgOf(f), "examples") {
+			continue
+		}
+		for _, a := range p.Accesses(f) {
+			if !a.Write || a.Pointee || !inScope(a.Field.Type) || !freshBase(a) {
+				continue
+			}
+			n++
+			if g := isSharedLoad(a.Val); g != nil {
+				bad = append(bad, fmt.Sprintf("%s: %s initialises %s.%s from the package-level variable %s, which every instance then shares", p.At(a.Instr), p.Key(f), a.Field.Type.Obj().Name(), a.Field.Name, g.Name()))
+				continue
+			}
+			// a constructor parameter (possibly defaulted when nil): what the module's own call sites pass
+			var prms []*ssa.Parameter
+			seenV := map[ssa.Value]bool{}
+			var gather func(v ssa.Value, d int)
+			gather = func(v ssa.Value, d int) {
+				v = strip(v, false)
+				if d > 6 || seenV[v] {
+					return
+				}
+				seenV[v] = true
+				switch x := v.(type) {
+				case *ssa.Parameter:
+					prms = append(prms, x)
+				case *ssa.Phi:
+					for _, e := range x.Edges {
+						gather(e, d+1)
+					}
+				case *ssa.UnOp:
+					if g := isSharedLoad(x); g != nil {
+						bad = append(bad, fmt.Sprintf("%s: %s initialises %s.%s from the package-level variable %s, which every instance then shares", p.At(a.Instr), p.Key(f), a.Field.Type.Obj().Name(), a.Field.Name, g.Name()))
+					}
+				}
+			}
+			gather(a.Val, 0)
+			for _, prm := range prms {
+				idx := -1
+				for i, q := range f.Params {
+					if q == prm {
+						idx = i
+					}
+				}
+				if idx < 0 {
+					continue
+				}
+				for _, g2 := range p.Funcs {
+					allInstrs(g2, func(ins ssa.Instruction) {
+						ci, ok := ins.(ssa.CallInstruction)
+						if !ok || ci.Common().StaticCallee() != f || idx >= len(ci.Common().Args) {
+							return
+						}
+						if g := isSharedLoad(ci.Common().Args[idx]); g != nil {
+							bad = append(bad, fmt.Sprintf("%s: %s passes the package-level variable %s to %s, which stores it into %s.%s: every object built this way shares it", p.At(ins), p.Key(g2), g.Name(), p.Key(f), a.Field.Type.Obj().Name(), a.Field.Name))
+						}
+					})
+				}
+			}
+		}
+	}
+	sort.Strings(bad)
+	if len(bad) > 6 {
+		bad = bad[:6]
+	}
+	l.Check(len(bad) == 0 && n > 0, "O6", "module/shared-globals", "", fmt.Sprintf("%d construction-time field initialisations examined", n), "two instances share mutable memory that each protects with its own lock", bad...)
+}
+
+func c17PointerReceivers(p *Prog, l *Ledger, inScope func(*types.Named) bool) {
+	var bad []string
+	n := 0
+	for _, f := range p.Funcs {
+		recv := f.Signature.Recv()
+		if recv == nil || f.Parent() != nil || f.Synthetic != "" {
+			continue
+		}
+		nt, isNamed := recv.Type().(*types.Named)
+		if !isNamed {
+			continue // pointer receiver
+		}
+		if !inScope(nt) || len(mutexFields(nt)) == 0 {
+			continue
+		}
+		n++
+		bad = append(bad, fmt.Sprintf("%s: %s has a value receiver although %s holds a mutex by value: every call copies the lock and all fields unsynchronised", p.FuncPos(f), p.Key(f), nt.Obj().Name()))
+	}
+	cnt := 0
+	for _, f := range p.Funcs {
+		if recv := f.Signature.Recv(); recv != nil && f.Parent() == nil {
+			if d := derefNamed(recv.Type()); d != nil && inScope(d) && len(mutexFields(d)) > 0 {
+				cnt++
+			}
+		}
+	}
+	sort.Strings(bad)
+	l.Check(len(bad) == 0 && cnt > 0, "O7", "module/pointer-receivers", "", fmt.Sprintf("%d methods of mutex-holding types, all with pointer receivers", cnt), "a method copies a lock", bad...)
 }
